@@ -33,6 +33,84 @@ type env struct {
 	root  generic.Value
 	opts  *generic.Options
 	nodes int
+	rnd   lcg
+}
+
+type lcg uint64
+
+func (l *lcg) n(k int) int {
+	*l = *l*6364136223846793005 + 1442695040888963407
+	if k <= 0 {
+		return 0
+	}
+	return int((uint64(*l) >> 33) % uint64(k))
+}
+
+// bulk compares a GetMany on a list or map value with the single lookups: the wanted paths are given in a
+// drawn order (a subset of the present ones, in any order, plus absent ones), every present one must deliver
+// the node the single lookup delivers, every absent one an empty slot.
+func (e *env) bulk(reg, ps string, got generic.Value, present []generic.Path, absent []generic.Path, single func(generic.Path) generic.Value) {
+	c := e.c
+	var pn []generic.PathNode
+	var isPresent []bool
+	perm := make([]int, len(present))
+	for i := range perm {
+		perm[i] = i
+	}
+	for i := len(perm) - 1; i > 0; i-- {
+		j := e.rnd.n(i + 1)
+		perm[i], perm[j] = perm[j], perm[i]
+	}
+	take := len(perm)
+	if take > 1 && e.rnd.n(2) == 0 {
+		take = 1 + e.rnd.n(take)
+	}
+	for _, i := range perm[:take] {
+		pn = append(pn, generic.PathNode{Path: present[i]})
+		isPresent = append(isPresent, true)
+	}
+	for _, a := range absent {
+		at := e.rnd.n(len(pn) + 1)
+		pn = append(pn[:at], append([]generic.PathNode{{Path: a}}, pn[at:]...)...)
+		isPresent = append(isPresent[:at], append([]bool{false}, isPresent[at:]...)...)
+	}
+	if len(pn) == 0 {
+		return
+	}
+	marker := generic.NewNode(dproto.STRING, []byte("dirty-slot"))
+	for i := range pn {
+		pn[i].Node = marker
+	}
+	order := ""
+	for _, q := range pn {
+		order += pathStr([]generic.Path{q.Path}) + " "
+	}
+	c.Step("GetMany %s [%s]", ps, order)
+	c.Class(fmt.Sprintf("bulk:n=%d", min(len(pn), 4)))
+	c.Protect(reg, func() {
+		if err := got.GetMany(pn, &generic.Options{ClearDirtyValues: true}); err != nil {
+			c.Fail(reg, "getmany-error", "GetMany %s [%s]: %v", ps, order, err)
+			return
+		}
+		for i := range pn {
+			g := pn[i].Node
+			if !isPresent[i] {
+				if g.Type() != 0 && !g.IsError() {
+					c.Fail(reg, "getmany-absent-filled", "GetMany %s [%s]: absent %s delivered as %v", ps, order, pathStr([]generic.Path{pn[i].Path}), g.Type())
+				}
+				continue
+			}
+			w := single(pn[i].Path)
+			if w.IsError() {
+				continue // reported by the single lookups
+			}
+			if g.IsError() || g.Type() == 0 || !bytes.Equal(g.Raw(), w.Raw()) || g.Type() != w.Type() {
+				if c.Fail(reg, "getmany-missed-present", "GetMany %s [%s]: present %s not delivered as the single lookup delivers it (type %v, %d bytes; single lookup: type %v, %d bytes)", ps, order, pathStr([]generic.Path{pn[i].Path}), g.Type(), len(g.Raw()), w.Type(), len(w.Raw())) {
+					return
+				}
+			}
+		}
+	})
 }
 
 // ---- expected Go values for Interface()
@@ -430,6 +508,17 @@ func (e *env) checkValue(what string, path []generic.Path, fd protoreflect.Field
 				c.Fail(reg, "absent-not-notfound:GetByPath", "GetByPath %s: absent key must be not-found, got %v", pathStr(full), r.Error())
 			}
 		})
+		if reg == "" {
+			var pres []generic.Path
+			for _, en := range ents {
+				if kk == protoreflect.StringKind {
+					pres = append(pres, generic.NewPathStrKey(en.k.String()))
+				} else {
+					pres = append(pres, generic.NewPathIntKey(keyInt(fd.MapKey(), en.k)))
+				}
+			}
+			e.bulk("bulk-map", ps, got, pres, []generic.Path{ap}[:e.rnd.n(2)], func(p generic.Path) generic.Value { return got.GetByPath(p) })
+		}
 	case fd.IsList():
 		l := want.List()
 		reg := ""
@@ -487,6 +576,17 @@ func (e *env) checkValue(what string, path []generic.Path, fd protoreflect.Field
 				c.Failf("absent-reported-present:Index", "Index(%d) on a list of %d elements returns a node", l.Len(), l.Len())
 			}
 		})
+		{
+			var pres []generic.Path
+			for i := 0; i < l.Len(); i++ {
+				pres = append(pres, generic.NewPathIndex(i))
+			}
+			breg := reg
+			if breg == "" {
+				breg = "bulk-list"
+			}
+			e.bulk(breg, ps, got, pres, []generic.Path{generic.NewPathIndex(l.Len() + e.rnd.n(3))}[:e.rnd.n(2)], func(p generic.Path) generic.Value { return got.GetByPath(p) })
+		}
 	case fd.Kind() == protoreflect.MessageKind:
 		if e.checkMessageNode(what, ps, want.Message(), got) && depth < 2 {
 			e.walk(want.Message(), got, path, depth+1)
@@ -559,7 +659,7 @@ func check(c *pbt.Ctx, cs Case) {
 	}
 	desc := comp.Svc.LookupMethodByName("Call").Input()
 	buf := append(make([]byte, 0, len(cs.Msg)+16), cs.Msg...) // spare capacity: not-found nodes keep a pointer to base+len
-	e := &env{c: c, opts: &generic.Options{MapStructById: cs.ById}}
+	e := &env{c: c, opts: &generic.Options{MapStructById: cs.ById}, rnd: lcg(cs.Pick | 1)}
 	e.root = generic.NewRootValue(desc, buf)
 	e.walk(ref, e.root, nil, 0)
 
